@@ -98,7 +98,7 @@ CLAIMED['C14'] = dict(
     category='other',
     text=('(a) Hunk geometry, totals, consumed lines and error positions: the parser is abstractly executed with concrete hunk '
           'headers chosen by the harness and *abstract line contents*, so each path is one sequence of line classes (-, +, '
-          'space, marker, other, @@-other); for every class sequence up to the bound (7 header shapes, up to 3 (thorough: 4) '
+          'space, marker, other, @@-other); for every class sequence up to the bound (9 header shapes incl. the created/deleted-file forms starting at line 0, up to 3 (thorough: 4) '
           'body lines, second hunks, garbage before/between/after, both ignore_garbage values) the result or the '
           'MalformedHunkError line is compared with a reference semantics written from the property statement. (b) On fully '
           'abstract lists: definite assignment (incl. the empty list), escape set {MalformedHunkError}, error arguments, '
@@ -129,7 +129,7 @@ CLAIMED['C13'] = dict(
           '"lines changed" is the sum of the two stored counts and container totals come from the children\'s metadata; '
           'encoding typestate of diff bytes at the hunk parser; undeclared line endings detected from the first line only.'),
     note=('Count exactness (the number of +/- lines inside hunks) is NOT decided: it is arithmetic over runtime diffs, '
-          'delegated to the hunk parser (C14, which does not decide geometry either). Known finding: diffs in a multi-byte '
+          'delegated to the hunk parser, whose rules (C14: bounded-exhaustive comparison with a reference semantics) are imported as C13-I14. Known finding: diffs in a multi-byte '
           'encoding count zero lines.'),
     technique='effect analysis (mutation events on the metadata mapping) + taint (no-feedback) + key-set agreement tables')
 
@@ -217,7 +217,7 @@ CLAIMED['C16'] = dict(
     category='other',
     text=('All four clauses, for the code shape: split_lines is abstractly interpreted over a dedicated finite domain (a list '
           'is "n leading elements of one form + optional distinguished last element", forms P / P+NL / LOSSY) for the cases '
-          'keep_ends x data-ends-with-newline (x newline == LF); with the trusted algebra of bytes.split the resulting forms '
+          'keep_ends x (no newline / one newline ending the data / other, ending with one or not) x (newline == LF or not); with the trusted algebra of bytes.split the resulting forms '
           'decide losslessness of the kept-ends mode, termination of every line but the last, the line count and the relation '
           'between the two modes. Any other list primitive (bytes.splitlines) is reported.'),
     note=('Trusted: the algebra of bytes.split (data = p_0 NL ... NL p_n; no piece contains NL; last piece empty iff data ends '
